@@ -60,6 +60,17 @@ func c10Trees(thorough bool) []val.V {
 			trees = append(trees, deep)
 		}
 	}
+	// numbers in every notation: sign x mantissa (integer, fraction, trailing and leading zeros) x
+	// exponent part (none, lower- and upper-case marker, signed, several digits, zero), each as a
+	// number, inside a list and as a member of a number set
+	for _, sg := range []string{"", "-"} {
+		for _, m := range []string{"1", "1.5", "10", "0.5", "1.50", "007", "100"} {
+			for _, e := range []string{"", "e2", "E2", "e+20", "E+20", "e-10", "E-10", "E100", "e0", "E0"} {
+				n := sg + m + e
+				trees = append(trees, val.M("n", val.N(n), "l", val.L(val.N(n)), "ns", val.NS(n, "424242")))
+			}
+		}
+	}
 	return trees
 }
 
@@ -177,7 +188,7 @@ func C10(run *ev.Run, tier string) map[string]interface{} {
 	return map[string]interface{}{
 		"evaluations":         evals,
 		"distinct_nontrivial": len(trees),
-		"rule":                "every attribute-value tree over the boundary leaves (empty and non-empty S and B, numbers in several notations incl. -0 / 1.50 / 1e2, both booleans, NULL, sets with one and two members) of depth 1 and 2 (lists and maps with 0, 1, 2 children; thorough: depth 3 over representatives and a depth-5 spine), stored as a non-key attribute with PutItem and read back through GetItem, Query, Scan, Query and Scan with Limit 1 (a filled page), Query and Scan through a secondary index, BatchGetItem (SDK v2) and GetItem after an UpdateItem of an unrelated attribute, in both SDK clients; a tree is distinct by its canonical text",
+		"rule":                "every attribute-value tree over the boundary leaves (empty and non-empty S and B, numbers in several notations incl. -0 / 1.50 / 1e2 and the family sign x mantissa x exponent part (e/E, signed, 1-3 digits), both booleans, NULL, sets with one and two members) of depth 1 and 2 (lists and maps with 0, 1, 2 children; thorough: depth 3 over representatives and a depth-5 spine), stored as a non-key attribute with PutItem and read back through GetItem, Query, Scan, Query and Scan with Limit 1 (a filled page), Query and Scan through a secondary index, BatchGetItem (SDK v2) and GetItem after an UpdateItem of an unrelated attribute, in both SDK clients; a tree is distinct by its canonical text",
 		"oracle":              "structural equality of names, types and values (sets as sets, numbers by numeric value)",
 		"samples":             samples,
 		"exhaustive":          true,
